@@ -9,8 +9,9 @@ import ast
 
 from ..core import rule
 from ..engine import cfg as cfgmod, flow
+from ..engine import pattern as P
 from ..engine.facts import dotted, const, src, walk_func, enclosing_stmt, ancestors
-from .common import calls, stmt_nodes, exc_successors, norm_successors, contains, is_subclass, param_default, pn
+from .common import calls, stmt_nodes, exc_successors, norm_successors, contains, is_subclass, param_default, pn, access_paths
 
 
 @rule("C14.failure-cleanup", min_instances=4)
